@@ -470,8 +470,11 @@ theorem isDeclared_accessE (e : CExpr) (k : Nat) (m : String) (arg : Option CExp
   cases arg <;> rfl
 
 theorem methodOf_fallback (D : Decls) (c m : String) (hf : D.reg.find c m = none) (hw : (c, m) ∈ D.warned)
-    (hb : c ∉ Generated.C10.baseTypes) (hat : m ≠ "at") : D.methodOf c 0 m = some fallbackCT := by
-  simp [Decls.methodOf, hf, hw, hb, hat, Generated.C10.fallbackDeref]
+    (hb : c ∉ specBaseTypes) (hat : m ≠ "at") : D.methodOf c 0 m = some fallbackCT := by
+  simp [Decls.methodOf, hf, hw, hb, hat]
+
+/-- the refusal list of the source is the property's (fails to build when the source changes it) -/
+theorem generated_baseTypes : Generated.C10.baseTypes = specBaseTypes := by decide
 
 theorem methodOf_at (D : Decls) (c : String) (E : CT) (hf : D.reg.find c "at" = none) (hi : D.iterOf c = some E) :
     D.methodOf c 0 "at" = some E := by
@@ -503,8 +506,9 @@ theorem step_inv (D : Decls) (Γ0 : List (String × CT)) (hc : D.consistent = tr
         have hat : m ≠ "at" := hnoat _ hwm
         refine ⟨?_, rfl, hinv.loops, isDeclared_accessE _ _ _ _⟩
         have := typeOf_access_method D s.gamma s.e s.ty.term m arg fallbackCT hinv.typed
-          (methodOf_fallback D _ _ hf hwm hb hat)
-        simpa [fallbackInfo, Generated.C10.fallbackDeref, fallbackCT, ctOf, RTy.term] using this
+          (methodOf_fallback D _ _ hf hwm (by rw [← generated_baseTypes]; exact hb) hat)
+        simpa [fallbackInfo, Generated.C10.fallbackDeref, Generated.C10.fallbackType, Generated.C10.fallbackDepth,
+          fallbackCT, ctOf, RTy.term] using this
   | index i =>
     unfold step at h
     cases hty : s.ty with
@@ -820,5 +824,45 @@ theorem arithNames_sub {n : String} (h : n ∈ arithNames) : n ∈ arithAll := b
 theorem promote_int {n : String} (h : n ∈ arithNames) : promote n "int" = n := by
   simp only [arithNames, List.mem_cons, List.mem_nil_iff, or_false] at h
   rcases h with rfl | rfl | rfl <;> decide
+
+
+/-! ### 7. what the translator accepts -/
+
+def tyOfResult : Except Err ChainSt → Option RTy
+  | .ok s => some s.ty
+  | .error _ => none
+
+theorem step_ty (reg : Registry) (s : ChainSt) (st : Step) :
+    tyOfResult (step reg s st) = specStepTy reg s.ty st := by
+  cases st with
+  | call m arg =>
+    cases hf : reg.find s.ty.term.name m with
+    | some i => simp [step, specStepTy, determineTypeMf, hf, tyOfResult]
+    | none =>
+      by_cases hb : s.ty.term.name ∈ specBaseTypes
+      · have hb' : s.ty.term.name ∈ Generated.C10.baseTypes := by rw [generated_baseTypes]; exact hb
+        simp [step, specStepTy, determineTypeMf, hf, hb, hb', tyOfResult]
+      · have hb' : s.ty.term.name ∉ Generated.C10.baseTypes := by rw [generated_baseTypes]; exact hb
+        simp [step, specStepTy, determineTypeMf, hf, hb, hb', tyOfResult, fallbackInfo, Generated.C10.fallbackType,
+          Generated.C10.fallbackDepth]
+  | index i =>
+    unfold step specStepTy
+    cases s.ty <;> simp [tyOfResult]
+  | each =>
+    unfold step specStepTy
+    cases s.ty <;> simp [tyOfResult]
+
+theorem runChain_ty (reg : Registry) : ∀ (steps : List Step) (s : ChainSt),
+    tyOfResult (runChain reg steps s) = specRunTy reg s.ty steps := by
+  intro steps
+  induction steps with
+  | nil => intro s; rfl
+  | cons st rest ih =>
+    intro s
+    unfold runChain specRunTy
+    have h := step_ty reg s st
+    cases hs : step reg s st with
+    | error e => rw [hs] at h; simp only [tyOfResult] at h; simp [← h, tyOfResult]
+    | ok s' => rw [hs] at h; simp only [tyOfResult] at h; simp only [← h]; exact ih s'
 
 end FaxVerif.C10
